@@ -64,3 +64,12 @@ Example C21_old_operators_disagreed :
               o_b_root := {| d_m := 2777777777777777777777777779; d_k := 34 |}; o_a_in_b := {| d_m := 24; d_k := 0 |} |} in
   r_eq (compare_all_old c r) = RT /\ r_lt (compare_all_old c r) = RT.
 Proof. vm_compute. split; reflexivity. Qed.
+
+(* REFUTED at full strength, with pint's actual conversion as the oracle (known finding): 0.004367 min IS 262.02 ms, but
+   pint converts 262.02 ms to 0.004367000000000000000000000001 min, so compare_values answers '<' and not '=' *)
+Example C21_exactness_refuted :
+  let c := {| c_ua := Some 1%nat; c_ub := Some 3%nat; c_a := {| d_m := 4367; d_k := 6 |}; c_b := {| d_m := 26202; d_k := 2 |};
+              c_dim_ok := true; c_b_in_a := {| d_m := 4367000000000000000000000001; d_k := 30 |};
+              c_fa := 60; c_oa := 0; c_fb := 1 # 1000; c_ob := 0 |} in
+  r_eq (spec c) = RT /\ r_eq (compare_all c) = RF /\ r_lt (compare_all c) = RT.
+Proof. vm_compute. repeat split; reflexivity. Qed.
